@@ -141,8 +141,15 @@ def main(prop, argv):
     known = C.load_known_findings()
     known_ids = {k["id"]: k for k in known.get("known", []) if k.get("property") == prop.ID}
 
+    from . import fingerprints
     try:
-        out = prop.run(Ctx(args.tier, seed, 1, pr["driver_ok"]))
+        fp_changed = fingerprints.changed_for(prop.ID, getattr(prop, "EXTRA_FILES", ()))
+    except Exception:
+        fp_changed = []
+    # anchored source differs from the tree the model was last aligned with: search with a larger budget
+    scale = 3 if fp_changed else 1
+    try:
+        out = prop.run(Ctx(args.tier, seed, scale, pr["driver_ok"]))
     except Exception:
         print("INFRA: correspondence/oracle crashed\n" + traceback.format_exc())
         return 2
@@ -214,6 +221,7 @@ def main(prop, argv):
         "contracts": out.contracts, "translate": pr["translate"],
         "proof_failures": pr["failed"], "disagreements": len(out.disagreements),
         "known_findings_hit": sorted(hit), "escalated_search": escalated, "notes": out.notes,
+        "fingerprints_changed": fp_changed, "budget_scale": scale,
     }
     C.write_evidence(prop.ID, args.tier, seed, coverage, list(getattr(prop, "ASSUMPTIONS", [])),
                      time.time() - t0, len(new) + (1 if (broken and not new) else 0))
